@@ -198,6 +198,17 @@ Theorem c20_source_threshold_as_modelled cfg :
 Proof. exact (source_threshold_as_modelled cfg). Qed.
 Print Assumptions c20_source_threshold_as_modelled.
 
+(** The outcome of a call does not depend on earlier calls on the same
+    instance, however they ended (answered, failed, abandoned by their caller
+    with workers still running): a call shares nothing with other calls but
+    the timer pool, and the threshold timer is owned by the secondary
+    goroutine from Get to its deferred Release ([timer_private], regenerated
+    from the source), so the model of any call of a sequence is the
+    single-call model all theorems above are about. *)
+Theorem c20_calls_independent earlier p : call_model earlier p = Some (init p).
+Proof. exact (calls_independent earlier p). Qed.
+Print Assumptions c20_calls_independent.
+
 (** The structure of doFallback that the model transcribes, as tools/gofacts
     finds it in the source: statement orders, channel capacity, collection
     rounds, the cases of the secondary's two selects, and the duration the
@@ -210,6 +221,7 @@ Example c20_source_shape_as_modelled :
   /\ fallback_chan_cap = 2 /\ fallback_collect_rounds = 2
   /\ fallback_wait_cases = ["primDone return"; "primFailed"; "timer.C"]%string
   /\ fallback_hold_cases = ["ctx.Done()"; "primDone"; "primFailed"; "timer.C"]%string
+  /\ fallback_timer_owned_by_secondary = true
   /\ fallback_timer_arg = "f.fastFallbackDuration"%string
   /\ fallback_standby_field_from = "args.AlwaysStandby"%string
   /\ fallback_default_threshold = 500000000%Z.
